@@ -35,6 +35,14 @@ CHECKS.update({
          "Generated operation sequences over gym, dm_env and MultiToSingle adapters on real environments: observations, rewards, terminated/truncated flags, first-timestep conventions and re-seeding reproducibility are compared with a native shadow after every operation; observations must belong to the converted space/spec and sampled gym actions must validate natively; aggregator pairs drawn from {sum,max,min,mean,prod}.",
          "After LAST the sequence always resets (stepping a finished episode is outside the contract); dm_env re-seed = new adapter object.", "3/C15"),
 })
+CHECKS.update({
+ "C17": ("exhaustive enumeration of finite domains (all 18*floor(n/2) cube moves and all ordered move pairs for n=2..7 against a geometric model built from the documented face conventions; the entire 2x2 and 3x3 sliding-tile state spaces by BFS through the env's own step) plus Hypothesis-generated scrambles, plays and undo sequences",
+         "Mixed: complete enumeration where the domain is finite and small (move tables, group identities, action encodings, single-sticker perturbations of solved cubes, 181 440-state 3x3 sliding puzzle: marked exhaustive per sub-check in the evidence) and generated-input exploration elsewhere (scramble keys, random walks on 4x4/5x5, env-level play/undo/solve sequences).",
+         "Cube geometry model trusts the documented 'looking directly at the face' conventions; cube sizes above 7 and sliding grids above 5x5 are not explored.", "3/C17"),
+ "C18": ("Hypothesis-generated id strings against a hand-written parser of the documented grammar; rule-based state machine over register/make/registered_environments against a model dict; all 25 shipped ids instantiated twice and compared (specs, documented attributes, bitwise-identical behaviour)",
+         "Generated-input exploration of the id grammar (valid / version-less / malformed in comparable shares, Unicode word characters and digits, leading zeros, huge versions) and of register/make histories with a recording dummy entry point; the 25 shipped ids are enumerated completely.",
+         "Ids with more than 4300 version digits (CPython int conversion limit) are out of domain; Sokoban-v0 is instantiated with a ToyGenerator override because its dataset is not available offline.", "3/C18"),
+})
 NOT_APPLICABLE = {}
 PENDING_REASON = "check not built yet in this revision of /verif (work in progress); the technique applies and the design is in DESIGN.md section 3"
 
